@@ -521,7 +521,7 @@ func BuildAliases(p *Prog) {
 					if _, isPinned := pinnedNames[f.Name()]; isPinned {
 						continue
 					}
-					if typeStr(f.Type()) == pt {
+					if looseType(typeStr(f.Type())) == looseType(pt) {
 						cand = append(cand, f)
 					}
 				}
@@ -531,7 +531,7 @@ func BuildAliases(p *Prog) {
 					// same arity: match by position
 					for i, f := range fp.Fields {
 						if strings.HasPrefix(f, pn+" ") {
-							if _, isPinned := pinnedNames[st.Field(i).Name()]; !isPinned && typeStr(st.Field(i).Type()) == pt {
+							if _, isPinned := pinnedNames[st.Field(i).Name()]; !isPinned && looseType(typeStr(st.Field(i).Type())) == looseType(pt) {
 								setAlias(p, st.Field(i), pn, "field "+Rel(ip)+"."+objName(tn))
 							}
 						}
@@ -688,4 +688,12 @@ func PinnedParamIndex(f *types.Func, name string) int {
 		}
 	}
 	return -1
+}
+
+// looseType ignores channel directions (a field narrowed from `chan T` to
+// `<-chan T` is the same field).
+func looseType(t string) string {
+	t = strings.ReplaceAll(t, "<-chan ", "chan ")
+	t = strings.ReplaceAll(t, "chan<- ", "chan ")
+	return t
 }
